@@ -22,6 +22,7 @@ import dlib  # noqa: E402
 logging.disable(logging.CRITICAL)
 
 from traits.api import Dict, HasTraits, Instance, Int, List, Set, Str  # noqa: E402
+from traits.constants import ComparisonMode  # noqa: E402
 from traits.observation import expression as X  # noqa: E402
 from traits.observation._filtered_trait_observer import FilteredTraitObserver  # noqa: E402
 from traits.observation._observer_change_notifier import ObserverChangeNotifier  # noqa: E402
@@ -35,7 +36,8 @@ from traits.trait_set_object import TraitSet  # noqa: E402
 EXN = ["NotifierNotFound", "ValueError"]
 FN = {0: "value", 1: "f", 2: "g", 3: "kids", 4: "m", 5: "s", 10: "trait_added", 11: "trait_modified",
       12: "x1", 13: "x2",      # 12, 13: dynamic Instance traits added with add_trait
-      14: "groups"}            # a Dict(Str, List(Instance)): nested containers (dict object: pseudo-field 17)
+      14: "groups",            # a Dict(Str, List(Instance)): nested containers (dict object: pseudo-field 17)
+      15: "kidsI"}             # a List declared with comparison_mode=identity (list object: pseudo-field 18)
 NF = {v: k for k, v in FN.items()}
 
 
@@ -58,6 +60,7 @@ class N(HasTraits):
     m = Dict(Str, Instance(HasTraits))
     s = Set(Instance(HasTraits))
     groups = Dict(Str, List(Instance(HasTraits)))
+    kidsI = List(Instance(HasTraits), comparison_mode=ComparisonMode.identity)
 
     # container defaults computed by _name_default methods: empty unless the case declares content
     def _kids_default(self):
@@ -97,9 +100,11 @@ def build_expr(g):
         e = X.match(match_vk, notify=bool(notify))
     elif f == 17:
         e = X.dict_items(notify=bool(notify), optional=bool(optional))
+    elif f == 18:
+        e = X.list_items(notify=bool(notify), optional=bool(optional))
     elif f <= 5 or f >= 10:
         e = X.trait(FN[f], notify=bool(notify), optional=bool(optional))
-    elif f == 6:
+    elif f in (6, 18):
         e = X.list_items(notify=bool(notify), optional=bool(optional))
     elif f == 7:
         e = X.dict_items(notify=bool(notify), optional=bool(optional))
@@ -172,7 +177,8 @@ class World:
             return [key[0], key[1], self.oid(ev.object), NF.get(ev.name, 99),
                     self.ids([ev.old]), self.ids([ev.new], may_alloc=True)]
         if isinstance(ev, ListChangeEvent):
-            return [key[0], key[1], self.oid(ev.object), 6, self.ids(ev.removed), self.ids(ev.added)]
+            return [key[0], key[1], self.oid(ev.object), self.cfield.get(self.oid(ev.object), 6),
+                    self.ids(ev.removed), self.ids(ev.added)]
         if isinstance(ev, DictChangeEvent):
             # the payload objects must be the objects removed from / now stored in the dict: a value that is
             # not a known object (e.g. a raw list instead of the stored TraitList) is dropped here
@@ -194,12 +200,12 @@ class World:
                 v = o.__dict__.get(FN[f])
                 if v is not None:
                     out["%d,%d" % (i, f)] = self.ids([v])
-            for f in (3, 4, 5, 14):
+            for f in (3, 4, 5, 14, 15):
                 v = o.__dict__.get(FN[f])
                 out["%d,%d" % (i, f)] = [] if v is None else self.ids([v])
         for cid, c in list(self.conts.items()):
             if isinstance(c, TraitList):
-                out["%d,6" % cid] = self.ids(list(c))
+                out["%d,%d" % (cid, self.cfield[cid])] = self.ids(list(c))
             elif isinstance(c, TraitDict):
                 out["%d,%d" % (cid, self.cfield[cid])] = self.ids(list(c.values()))
             else:
@@ -258,7 +264,7 @@ class World:
             self.pending_field = f + 3
             self.next += 1
             try:
-                if f == 3:
+                if f in (3, 15):
                     val = [self.pool[a] for a in items]
                 elif f == 14:
                     val = {}
@@ -327,7 +333,7 @@ class World:
         elif k == "Cop":
             _, c, f, meth, args = op[:5]
             cont = self.conts[c]
-            if f == 6:
+            if f in (6, 18):
                 if meth == "append":
                     cont.append(self.pool[args[0]])
                 elif meth == "insert":
@@ -376,7 +382,13 @@ class World:
                 else:
                     raise ValueError(meth)
             else:
-                if meth == "add":
+                if meth == "symdiff":
+                    other = {self.pool[a] for a in args[0]}
+                    if args[1]:
+                        cont ^= other
+                    else:
+                        cont.symmetric_difference_update(other)
+                elif meth == "add":
                     cont.add(self.pool[args[0]])
                 elif meth == "discard":
                     cont.discard(self.pool[args[0]])
